@@ -69,6 +69,7 @@ class Contract(object):
         self.returns = d.get('returns', None)           # type descriptor or tuple of them; '=p' aliases param p
         self.loops = {k: LoopSpec(v) for k, v in d.get('loops', {}).items()}
         self.raises = dict(d.get('raises', {}))         # exc name -> condition over the entry state
+        self.may_raise = list(d.get('may_raise', []))   # exceptions that may be raised on any input (partial correctness: frame only)
         self.hints = dict(d.get('hints', {}))           # site -> list of hints  ('return', 'assert0', ...)
         self.trusted = bool(d.get('trusted', False))    # contract assumed, body not verified (listed in evidence)
         self.bounded_only = bool(d.get('bounded_only', False))
@@ -458,6 +459,10 @@ class FuncVerifier(object):
 
     def at_raise(self, st, exc, node):
         c = self.c
+        if exc in c.may_raise:
+            for (p, t) in c.params:
+                self.frame_check(st, p, self.entry.env[p], t, node)
+            return
         if exc in c.raises:
             e = SpecEval(self.lib.theory, self.entry.env, self.entry.heap, self.entry.env, self.entry.heap, self.lib.preds)
             self.oblige(st, 'raises.%s.only_when' % exc, e.ev_bool(c.raises[exc]), node)
@@ -640,6 +645,9 @@ class FuncVerifier(object):
             else:
                 st.heap[base.loc] = AV(const_array(av.ndim, av.elem, as_num(val)), av.shape, av.elem)
             return
+        if isinstance(sl, ast.Tuple) and any(isinstance(e, ast.Slice) for e in sl.elts):
+            self.write_region(base, av, sl, val, st, node)
+            return
         idx = self.index_list(sl, st)
         if len(idx) == 1 and isinstance(idx[0], IdxList):
             # fancy two-row assignment  a[array([p,q])] = <Gather>
@@ -729,9 +737,13 @@ class FuncVerifier(object):
         k = self.loop_ord[id(n)]
         if n.orelse:
             raise OutOfFragment('for-else', n)
+        if isinstance(n.iter, ast.Call) and isinstance(n.iter.func, ast.Name) and n.iter.func.id == 'range' and len(n.iter.args) == 3 \
+                and isinstance(n.target, ast.Name) and isinstance(n.iter.args[2], ast.UnaryOp) and isinstance(n.iter.args[2].op, ast.USub) \
+                and isinstance(n.iter.args[2].operand, ast.Constant) and n.iter.args[2].operand.value == 1:
+            return self.st_For_down(n, st, k)
         if not (isinstance(n.iter, ast.Call) and isinstance(n.iter.func, ast.Name) and n.iter.func.id == 'range'
                 and 1 <= len(n.iter.args) <= 2 and isinstance(n.target, ast.Name)):
-            raise OutOfFragment('for loop that is not `for <name> in range(a[, b])`', n)
+            raise OutOfFragment('for loop that is not `for <name> in range(a[, b])` or `range(a, b, -1)`', n)
         if k not in self.c.loops:
             raise ContractError('%s: no invariant for loop %d (line %d)' % (self.c.key, k, n.lineno))
         ls = self.c.loops[k]
@@ -743,7 +755,7 @@ class FuncVerifier(object):
         site = 'loop%d' % k
         st.snaps = dict(st.snaps)
         st.snaps[site + '.pre'] = (dict(st.env), dict(st.heap))
-        self.oblige(st, site + '.range', lo <= hi, n, note='range(lo, hi) with lo <= hi')
+        hi = self.range_bound(st, lo, hi, site, n, up=True)
         # --- init
         s_init = st.copy()
         s_init.env[var] = lo
@@ -825,6 +837,87 @@ class FuncVerifier(object):
         s_x.pc.append(z3.Implies(hi > lo, after == hi - 1))
         if is_z3(old_var):
             s_x.pc.append(z3.Implies(hi <= lo, after == old_var))
+        s_x.env[var] = after
+        outs.append((s_x, None))
+        return outs
+
+    def range_bound(self, st, lo, hi, site, node, up):
+        """Python's range(lo, hi) is empty when hi < lo.  If lo <= hi follows quickly from the path condition the bound is used as
+        written (obligation `<site>.range`, as before); otherwise the loop is generated over max(lo, hi), which is what Python
+        executes, and the obligation is trivial.  (For a descending loop: lo = stop, hi = start.)"""
+        goal = lo <= hi
+        if z3.is_true(z3.simplify(goal)):
+            self.oblige(st, site + '.range', z3.BoolVal(True), node, note='range bounds ordered (syntactically)')
+            return hi
+        s = z3.Solver()
+        s.set('timeout', 2000)
+        for h in st.pc:
+            if not has_quantifier(h):
+                s.add(h)
+        s.add(z3.Not(goal))
+        if s.check() == z3.unsat:
+            self.oblige(st, site + '.range', goal, node, note='range(lo, hi) with lo <= hi')
+            return hi
+        self.oblige(st, site + '.range', z3.BoolVal(True), node, note='possibly empty range: generated over max(lo, hi)')
+        return z3.If(hi >= lo, hi, lo)
+
+    def st_For_down(self, n, st, k):
+        """`for v in range(start, stop, -1)`: v = start, start-1, ..., stop+1.  The invariant is stated over v at the loop head
+        (stop <= v <= start; v == stop at exit).  An empty range (start < stop) is rejected by the `.range` obligation."""
+        if k not in self.c.loops:
+            raise ContractError('%s: no invariant for loop %d (line %d)' % (self.c.key, k, n.lineno))
+        ls = self.c.loops[k]
+        var = n.target.id
+        if ls.var is not None and ls.var != var:
+            raise OutOfFragment('loop %d iterates over %r, contract expects %r' % (k, var, ls.var), n)
+        if ls.step_by:
+            raise ContractError('by-clauses are not supported on a descending loop')
+        start, stop = [as_num(self.pev(a, st)) for a in n.iter.args[:2]]
+        site = 'loop%d' % k
+        st.snaps = dict(st.snaps)
+        st.snaps[site + '.pre'] = (dict(st.env), dict(st.heap))
+        start = self.range_bound(st, stop, start, site, n, up=False)
+        s_init = st.copy()
+        s_init.env[var] = start
+        sp = self.spec(s_init)
+        for ci, clause in enumerate(ls.invariant):
+            self.oblige(s_init, '%s.inv%d.init' % (site, ci), sp.ev_bool(clause), n, note=clause)
+        old_var = st.env.get(var)
+        s_h = self.havoc_loop(n, st, ls)
+        iv = fresh(var, I)
+        s_h.env[var] = iv
+        s_h.pc.append(stop <= iv)
+        s_h.pc.append(iv <= start)
+        sp = self.spec(s_h)
+        for clause in ls.invariant:
+            s_h.pc.append(sp.ev_bool(clause))
+        outs = []
+        s_b = s_h.copy()
+        s_b.pc.append(iv > stop)
+        s_b.snaps[site + '.head'] = (dict(s_b.env), dict(s_b.heap))
+        self.apply_hints(s_b, ls.hints_head, site + '.head')
+        for (s1, ctl) in self.exec_block(n.body, s_b):
+            if ctl is None or ctl == 'continue':
+                cur = s1.env.get(var)
+                if not (is_z3(cur) and z3.eq(cur, iv)):
+                    raise OutOfFragment('loop variable reassigned in the body', n)
+                self.check_rebinds(n, s_h, s1)
+                self.apply_hints(s1, ls.hints_end, site + '.end')
+                s1.env[var] = iv - 1
+                sp1 = self.spec(s1)
+                for ci, clause in enumerate(ls.invariant):
+                    self.oblige(s1, '%s.inv%d.step' % (site, ci), sp1.ev_bool(clause), n, note=clause)
+            elif ctl == 'break':
+                outs.append((s1, None))
+            else:
+                outs.append((s1, ctl))
+        s_x = s_h.copy()
+        s_x.pc.append(iv == stop)
+        self.apply_hints(s_x, ls.hints_exit, site + '.exit')
+        after = fresh(var + '_after', I)
+        s_x.pc.append(z3.Implies(start > stop, after == stop + 1))
+        if is_z3(old_var):
+            s_x.pc.append(z3.Implies(start <= stop, after == old_var))
         s_x.env[var] = after
         outs.append((s_x, None))
         return outs
@@ -1222,6 +1315,8 @@ class FuncVerifier(object):
             k_ = fresh('k', I)
             st.pc.append(z3.ForAll([k_], z3.Select(res, k_) == z3.Select(av.term, k_ + lo), patterns=[z3.Select(res, k_)]))
             return st.alloc(AV(res, (hi - lo,) + tuple(av.shape[1:]), av.elem))
+        if isinstance(v, (Ref, View)) and isinstance(sl, ast.Tuple) and any(isinstance(e, ast.Slice) for e in sl.elts):
+            return self.read_region(self.deref(v, st), sl, st, n)
         if isinstance(v, (Ref, View)):
             av = self.deref(v, st)
             idx = self.index_list(sl, st)
@@ -1247,6 +1342,84 @@ class FuncVerifier(object):
                 return AV(t, av.shape[len(idx):], av.elem)      # value snapshot (read-only use)
             raise OutOfFragment('too many indices', n)
         raise OutOfFragment('subscript of %s' % type(v).__name__, n)
+
+    # ------------------------------------------------------------------ rectangular regions  a[j, lo:hi], a[:, lo:hi], a[lo:hi, c]
+    def region_spec(self, av, sl, st, node):
+        """per axis: ('i', index) or ('s', lo, hi); bounds are obligations"""
+        if len(sl.elts) != av.ndim:
+            raise OutOfFragment('region subscript must index every axis', node)
+        spec = []
+        for e, nmax in zip(sl.elts, av.shape):
+            if isinstance(e, ast.Slice):
+                if e.step is not None:
+                    raise OutOfFragment('slice with a step', node)
+                lo = as_num(self.pev(e.lower, st)) if e.lower is not None else z3.IntVal(0)
+                hi = as_num(self.pev(e.upper, st)) if e.upper is not None else nmax
+                self.oblige(st, self.site(node, 'bounds'), z3.And(0 <= lo, lo <= hi, hi <= nmax), node)
+                spec.append(('s', lo, hi))
+            else:
+                k = self.index_one(e, st)
+                if isinstance(k, IdxList):
+                    raise OutOfFragment('fancy index mixed with a slice', node)
+                self.bounds(st, k, nmax, node)
+                spec.append(('i', k))
+        return spec
+
+    def read_region(self, av, sl, st, node):
+        """value of a rectangular region (a fresh array constant with a pointwise definition); numpy would return a view:
+        every write through the result is out of the fragment, reads are exact as long as the base is not modified while the
+        result is live -- the result is consumed in the same statement in the code base"""
+        spec = self.region_spec(av, sl, st, node)
+        shape = tuple(hi - lo for (kind, *r) in spec if kind == 's' for (lo, hi) in [r])
+        res = fresh_array('region', len(shape), av.elem, shape=shape)
+        ks = [fresh('k', I) for _ in shape]
+        src, dst, it = av.term, res.term, iter(ks)
+        for item in spec:
+            if item[0] == 'i':
+                src = z3.Select(src, item[1])
+            else:
+                k_ = next(it)
+                src = z3.Select(src, k_ + item[1])
+                dst = z3.Select(dst, k_)
+        st.pc.append(z3.ForAll(ks, dst == src, patterns=[dst]))
+        return st.alloc(res)
+
+    def write_region(self, base, av, sl, val, st, node):
+        spec = self.region_spec(av, sl, st, node)
+        shape = tuple(hi - lo for (kind, *r) in spec if kind == 's' for (lo, hi) in [r])
+        scalar = None
+        if isinstance(val, (Ref, View, AV)):
+            src = self.deref(val, st)
+            if src.ndim != len(shape):
+                raise OutOfFragment('rank mismatch in region assignment', node)
+            self.oblige(st, self.site(node, 'shape'), z3.And(*[a == b for a, b in zip(shape, src.shape)]), node)
+        else:
+            scalar = self.coerce_elem(val, av.elem, node)
+        # leading integer indices select a sub-array that is replaced by a Store (all other sub-arrays stay syntactically the
+        # same terms); the sub-array itself is a fresh constant defined pointwise
+        lead = []
+        while len(lead) < len(spec) and spec[len(lead)][0] == 'i':
+            lead.append(spec[len(lead)][1])
+        rest = spec[len(lead):]
+        sub_old = av.term
+        for k_ in lead:
+            sub_old = z3.Select(sub_old, k_)
+        new = fresh('upd', sub_old.sort())
+        ks = [fresh('k', I) for _ in rest]
+        inside = []
+        o, nw = sub_old, new
+        sv = None if scalar is not None else src.term
+        for k_, item in zip(ks, rest):
+            o, nw = z3.Select(o, k_), z3.Select(nw, k_)
+            if item[0] == 'i':
+                inside.append(k_ == item[1])
+            else:
+                inside.append(z3.And(item[1] <= k_, k_ < item[2]))
+                if sv is not None:
+                    sv = z3.Select(sv, k_ - item[1])
+        rhs = scalar if scalar is not None else sv
+        st.pc.append(z3.ForAll(ks, nw == z3.If(z3.And(*inside), rhs, o), patterns=[nw]))
+        st.heap[base.loc] = AV(store_nd(av.term, lead, new) if lead else new, av.shape, av.elem)
 
     # ------------------------------------------------------------------ calls
     def ex_Call(self, n, st):
